@@ -458,11 +458,11 @@ def check_C17(rng, budget):
 # ---------------------------------------------------------------------------------------------
 # C18 neutral controls
 # ---------------------------------------------------------------------------------------------
-def _run_engine(engine, rec, vals, params):
+def _run_engine(engine, rec, vals, params, flags=None):
     b = build_from_recipe(rec)
     if engine == "numpy":
-        return b, numpy_step(b, vals, params)
-    F, _ = casadi_function(b, params, sym=engine, compact=0)
+        return b, numpy_step(b, vals, params, flags=flags)
+    F, _ = casadi_function(b, params, sym=engine, compact=0, flags=flags)
     return b, unpack_outputs(b, call(F, pack_args(b, F, vals, 0)), 0)
 
 
@@ -474,7 +474,10 @@ def eval_C18(case):
     viol = []
     INF = float("inf")
     b0 = build_from_recipe(rec)
-    if _ref(b0, {k: {n: [1.0 if math.isinf(x) else x for x in xs] for n, xs in d.items()} for k, d in vals.items()}, params)["singular"]:
+    try:
+        if _ref(b0, {k: {n: [1.0 if math.isinf(x) else x for x in xs] for n, xs in d.items()} for k, d in vals.items()}, params, case.get("flags"))["singular"]:
+            return dict(evals=0, skipped=1)
+    except ValueError:  # the reference model is undefined there (e.g. a negative density that is not clamped)
         return dict(evals=0, skipped=1)
     tags = [mode]
     if mode in ("vsl-inf", "vsl-finite"):
@@ -492,8 +495,8 @@ def eval_C18(case):
         if mode == "vsl-inf":
             for l in vsl_links:
                 vals[l["key"]]["v_ctrl"] = [INF] * len(l["vsl"])
-        _, got = _run_engine(engine, r1, vals, params)
-        _, want = _run_engine(engine, plain, v_plain, params)
+        _, got = _run_engine(engine, r1, vals, params, case.get("flags"))
+        _, want = _run_engine(engine, plain, v_plain, params, case.get("flags"))
         for k in want:
             if mode == "vsl-inf" or k[1] != "v":
                 if not close(got[k], want[k]):
@@ -570,8 +573,10 @@ def check_C18(rng, budget):
 
     def gen():
         i = 0
-        for c in net_cases(rng, kinds=("interior", "boundary"), per_net=1, long_links=False):
+        for c in net_cases(rng, kinds=("interior", "boundary", "negative"), per_net=1, long_links=False):
             for mode in modes:
+                if c.get("kind") == "negative" and mode != "vsl-inf":
+                    continue
                 if not applicable(c["recipe"], mode):
                     continue
                 for engine in ("numpy", ["SX", "MX"][i % 2]):
@@ -580,6 +585,9 @@ def check_C18(rng, budget):
                         cc = copy.deepcopy(c)
                         cc.update(mode=mode, engine=engine, alpha=alpha, ramp_type=["out", "in"][i % 2],
                                   factor=[1.0, 1.0, 1.7][i % 3], tag=mode)
+                        if mode == "vsl-inf" and (i % 2 or c.get("kind") == "negative"):
+                            # the step options apply to a speed-limited link exactly as to a plain one
+                            cc["flags"] = {"positive_init_speed": True, "positive_init_density": True, "positive_next_speed": bool(i % 4 == 1)}
                         yield cc
     return run_cases("paired networks from identical states, NumPy and CasADi (SX/MX): LinkWithVsl with np.inf limits (alpha in "
                      "{0,-0.1,0.1}) or empty set == plain Link; finite limits never increase a next speed and leave unlimited "
